@@ -122,7 +122,7 @@ inline Tol tolOf(Fam f) {
   switch (f) {
     case F_GAMMA: return {5e-8, 1e-7, 1e-7, 1e-7, true};    // pGamma "accurate = 1e-8", AS91 quantile
     case F_GAUSS: return {1e-13, 1e-7, 1e-12, 1e-7, true};  // AS70 quantile: |z error| <= 1.5e-8
-    case F_BETA: return {1e-11, 1e-11, 1e-10, 1e-9, true};
+    case F_BETA: return {1e-11, 1e-10, 1e-10, 1e-9, true};    // quantile: C08 claims 1e-11 for shapes >= 0.3; worst seen 1.6e-12 over shapes >= 0.1
     case F_TEXP: return {1e-12, 1e-11, 1e-10, 1e-11, false};  // division by 1-exp(-lambda tp) >= 0.00995
     default: return {1e-13, 1e-12, 1e-12, 1e-12, false};      // closed forms
   }
